@@ -33,14 +33,12 @@ def flagName : _root_.Step.Flag → String
   | .headIsPair => "HeadIsPair"
   | .nilHead => "NilHead"
   | .opByName => "OpByName"
-  | .intIsName => "IntIsName"
-  | .nonCanonicalOp => "NonCanonicalOp"
-  | .nonCanonicalPath => "NonCanonicalPath"
-  | .zeroPath => "ZeroPath"
+  | .intSpellsName => "IntSpellsName"
+  | .refusedOp => "RefusedOp"
   | .legacyZero => "LegacyZero"
 
 def allFlags : List _root_.Step.Flag :=
-  [.headIsPair, .nilHead, .opByName, .intIsName, .nonCanonicalOp, .nonCanonicalPath, .zeroPath, .legacyZero]
+  [.headIsPair, .nilHead, .refusedOp, .opByName, .intSpellsName, .legacyZero]
 
 def showFlags (fl : List _root_.Step.Flag) : String :=
   let present := allFlags.filter (fun f => fl.contains f)
